@@ -2,7 +2,7 @@ import PdfVerif.Lemmas.CONCExclStep
 /-!
 Invariant behind `exclusive_progress` (C18): when `DecodeExclusive` is used only for "sinks"
 (a decode function running under `DecodeExclusive` never calls `DecodeExclusive` again — the
-restriction documented at `DecodeExclusive`) and nothing panics, the system cannot deadlock.
+restriction documented at `DecodeExclusive`) and no decode function panics, the system cannot deadlock.
 -/
 namespace PdfVerif.CONC
 
@@ -167,14 +167,7 @@ theorem LInv.local {s s' : State} (hl : LInv s) (t : Tid) (stk' : List Frame)
     · next e => subst e; rw [hown]; exact h0
     · exact h0
 
-theorem pairCall_thr_nopanic (cfg : Cfg) (hif : ∀ tp, cfg.iface tp = false) (s t r A B a b) :
-    (pairCall cfg s t r A B a b).thr = s.thr := by
-  simp only [pairCall, assertPanics, hif, Bool.false_and, Bool.false_eq_true, if_false]
-  split
-  · split <;> rfl
-  · split <;> rfl
-
-theorem LInv.step {cfg : Cfg} (hif : ∀ tp, cfg.iface tp = false) {s s' : State} {t : Tid} {a : Act}
+theorem LInv.step {cfg : Cfg} {s s' : State} {t : Tid} {a : Act}
     (hx : XInv s) (hg : SinkGuard s (t, a)) (hl : LInv s) (h : step cfg s t a = some s') : LInv s' := by
   have hT := hl.stk t
   unfold CONC.step at h
@@ -190,7 +183,7 @@ theorem LInv.step {cfg : Cfg} (hif : ∀ tp, cfg.iface tp = false) {s s' : State
     simp only at h
     split at h
     · cases h
-      exact hl.local t (s.thr t) (by rw [pairCall_thr_nopanic cfg hif, upd_self]) (pairCall_pend ..)
+      exact hl.local t (s.thr t) (by rw [pairCall_thr, upd_self]) (pairCall_pend ..)
         (pairCall_npend ..) hT (Nat.le_refl _) rfl
     · cases h
   | callExcl o tp path =>
@@ -208,7 +201,7 @@ theorem LInv.step {cfg : Cfg} (hif : ∀ tp, cfg.iface tp = false) {s s' : State
         simp only
         cases s.cache (r, tp) with
         | some v =>
-          simp only [assertPanics, hif, Bool.false_and]
+          simp only
           exact hl.local t _ (retExc_thr ..) (retExc_pend ..) (retExc_npend ..)
             (hT.toBelow.deliver (by simp)) (by simp) (owned_deliverStack ..)
         | none =>
@@ -425,7 +418,7 @@ theorem LInv.step {cfg : Cfg} (hif : ∀ tp, cfg.iface tp = false) {s s' : State
               (by rw [e, exclCount_deliverStack, exclCount_cons]; exact Nat.le_add_right _ _)
               (by rw [e, owned_deliverStack, owned_cons_none _ rfl])
           | ok v =>
-            simp only [assertPanics, hif, Bool.false_and] at h
+            simp only at h
             cases h
             exact hl.local t _ (retExc_thr ..) (retExc_pend ..) (retExc_npend ..) (hb.deliver (by simp))
               (by rw [e, exclCount_deliverStack, exclCount_cons]; exact Nat.le_add_right _ _)
